@@ -8,6 +8,7 @@ package json
 
 import (
 	"bytes"
+	"errors"
 	"io"
 
 	"github.com/segmentio/encoding/json"
@@ -28,5 +29,45 @@ func (d *Decoder) Decode(v any) error {
 }
 
 func Unmarshal(data []byte, v any) error {
+	if err := checkDepth(data); err != nil {
+		return err
+	}
 	return NewDecoder(bytes.NewReader(data)).Decode(v)
+}
+
+// maxDepth is the nesting depth beyond which documents are refused; it is the
+// limit of encoding/json.
+const maxDepth = 10000
+
+// checkDepth reports an error if arrays and objects in data are nested more
+// than maxDepth deep. The underlying decoder recurses once per level without a
+// limit of its own: a few megabytes of "[[[[..." would otherwise exhaust the
+// goroutine stack, which ends the process.
+func checkDepth(data []byte) error {
+	depth := 0
+	inString := false
+	for i := 0; i < len(data); i++ {
+		c := data[i]
+		if inString {
+			switch c {
+			case '\\':
+				i++ // the escaped character cannot end the string
+			case '"':
+				inString = false
+			}
+			continue
+		}
+		switch c {
+		case '"':
+			inString = true
+		case '[', '{':
+			depth++
+			if depth > maxDepth {
+				return errors.New("json: exceeded max depth")
+			}
+		case ']', '}':
+			depth--
+		}
+	}
+	return nil
 }
